@@ -56,6 +56,7 @@ func main() {
 	mapSched := flag.Int("mapsched", -1, "map-iteration schedule mode: max deviating sites (-1 = off)")
 	timeout := flag.Int("solver-timeout", 20000, "per query ms")
 	wallLimit := flag.Int("wall", 0, "wall-clock limit per harness in seconds (0 = none); exceeding it truncates the exploration")
+	seed := flag.Int64("seed", 0, "seed for the sample of paths kept for native validation")
 	tier := flag.Int("tier", 0, "value returned by vf_Tier (0 quick, 1 thorough)")
 	liaSolver := flag.String("lia-solver", "cvc5", "solver for the integer view (z3|cvc5)")
 	crossSolver := flag.String("cross-solver", "cvc5", "second solver (one-shot)")
@@ -168,6 +169,7 @@ func main() {
 	eng.Verbose = *verbose
 	eng.SolverTimeout = *timeout
 	eng.Tier = *tier
+	eng.Seed = *seed
 	eng.WallLimit = time.Duration(*wallLimit) * time.Second
 	eng.LIASolver = *liaSolver
 	eng.CrossSolver = *crossSolver
